@@ -18,7 +18,7 @@ RULE = ("case = deterministic-sampling training configuration (as C07, static gr
         "(condition kinds, optimizer, scheduler, c, w, N, number of schedules)")
 ASSUMPTIONS = ["a crash is never injected inside a file write (torn files are outside what C19 states)",
                "sampling is deterministic (static grids, single-batch data), as the property requires",
-               "restarts happen in the same interpreter from freshly built objects (fresh-interpreter restarts: see thorough pre-phase)"]
+               "the enumerated crash points restart in the same interpreter from freshly built objects; in addition 6 (quick) / 60 (thorough) legs kill a child interpreter with os._exit at the crash point and resume in a new interpreter"]
 COMPONENTS = {"real": ["torchphysics Solver/callbacks (TrainerStateCheckpoint, WeightSaveCallback)", "pytorch_lightning checkpoint save/restore", "torch.save/torch.load on tmpfs"],
               "owned_by_simulator": ["crash points (hook x step)", "restart schedule", "weight initialisation seed at restart", "private directory"],
               "stubbed_or_disabled": ["logger", "GPU", "torn/partial writes"]}
@@ -48,3 +48,82 @@ def shrink(case):
         s = case["crashes"][0]
         for i in range(len(s)):
             yield dict(case, crashes=[s[:i] + s[i + 1:]])
+
+
+def _fresh_leg(args):
+    """One configuration: uninterrupted run, real process death at (k, hook), restart, all in fresh interpreters."""
+    import json, os, shutil, subprocess, sys, tempfile
+    import torch
+    case, k, hook = args
+    from ..core.runner import VERIF
+    root = tempfile.mkdtemp(prefix="simverif_c19f_", dir="/dev/shm" if os.path.isdir("/dev/shm") else None)
+    out = []
+    try:
+        cp = os.path.join(root, "case.json")
+        json.dump(case, open(cp, "w"))
+        env = dict(os.environ, PYTHONHASHSEED="0")
+        py = [sys.executable, "-W", "ignore", "-m", "simverif.c19child"]
+        dfull, dcr = os.path.join(root, "full"), os.path.join(root, "crash")
+        os.makedirs(dfull)
+        os.makedirs(dcr)
+        p0 = subprocess.run(py + ["full", cp, dfull], cwd=VERIF, env=env, capture_output=True, text=True, timeout=600)
+        p1 = subprocess.run(py + ["crash", cp, dcr, str(k), hook], cwd=VERIF, env=env, capture_output=True, text=True, timeout=600)
+        if p0.returncode != 0:
+            return [("HARNESS", "uninterrupted child failed: " + p0.stderr[-300:])], 0
+        if p1.returncode != 17:
+            return [("skip", "crash point not reached (exit %d)" % p1.returncode)], 0
+        if not os.path.exists(os.path.join(dcr, "state.ckpt")):
+            last_done = k if hook == "batch_end_after_ckpt" else k - 1
+            if any(j % case["ckpt_interval"] == 0 for j in range(0, last_done + 1)):
+                return [("C19", "no-checkpoint-file-after-interval")], 1
+            return [("skip", "no checkpoint yet")], 0
+        p2 = subprocess.run(py + ["resume", cp, dcr, str(case["spec"]["init"] + 99)], cwd=VERIF, env=env,
+                            capture_output=True, text=True, timeout=600)
+        if p2.returncode != 0:
+            return [("C19", "resume-in-fresh-interpreter-fails: " + p2.stderr[-300:])], 1
+        a = torch.load(os.path.join(dfull, "final_full.pt"), weights_only=False)
+        b = torch.load(os.path.join(dcr, "final_resume.pt"), weights_only=False)
+        from ..trainsim import same, opt_states_equal
+        for name, x, y in zip(a["names"], a["final"], b["final"]):
+            if not same(x, y):
+                out.append(("C19", "learnable-state-differs-from-uninterrupted-run (fresh interpreters): " + name))
+                break
+        else:
+            if not opt_states_equal(a["opt"], b["opt"]):
+                out.append(("C19", "optimizer-state-differs-from-uninterrupted-run (fresh interpreters)"))
+            elif a["last_epoch"] != b["last_epoch"]:
+                out.append(("C19", "scheduler-state-differs (fresh interpreters)"))
+        return out, 1
+    finally:
+        shutil.rmtree(root, ignore_errors=True)
+
+
+def pre(tier, base):
+    """Fresh-interpreter legs: the process really dies (os._exit) and a new interpreter resumes from the files."""
+    import concurrent.futures as cf
+    from ..core.seed import H, rnd
+    from ..geosim import viol
+    from ..trainsim import HOOKS
+    n = 6 if tier == "quick" else 60
+    jobs = []
+    for i in range(n):
+        seed = H(base, ID, "fresh", i)
+        case = train_cases.gen_c19(seed, tier)
+        r = rnd(seed, "crashpoint")
+        N = case["spec"]["N"]
+        k = r.randrange(1, N) if N > 1 else 0
+        jobs.append((case, k, r.choice(HOOKS)))
+    violations, compared, samples = [], 0, []
+    with cf.ThreadPoolExecutor(max_workers=8) as ex:
+        for (case, k, hook), (res, cmpd) in zip(jobs, ex.map(_fresh_leg, jobs)):
+            compared += cmpd
+            for prop, what in res:
+                if prop == "C19":
+                    c2 = dict(case, crashes=[[[k, hook]]])
+                    violations.append((viol("C19", "resume-fresh-interpreter", what.split(":")[0], "", crash=[k, hook], what=what[:200]), c2))
+                elif prop == "HARNESS":
+                    print("HARNESS-ERROR: " + what)
+            samples.append({"fresh_interpreter_leg": {"N": case["spec"]["N"], "crash": [k, hook], "ckpt_interval": case["ckpt_interval"],
+                                                      "result": [w for _, w in res] or ["bitwise equal"]}})
+    return {"violations": violations, "evaluations": len(jobs), "distinct_nontrivial": compared,
+            "samples": samples[:2], "fresh_interpreter_legs": len(jobs), "fresh_interpreter_resumes_compared": compared}
